@@ -612,6 +612,25 @@ class RealStore:
         self.seen = set()
         self.grid = grid
         self.snap = []  # canonical reading of every object at creation (purity check on the real code)
+        self.hashes = []  # hash of every object when first observed
+
+    def observe(self):
+        """side-effect-free observers between the steps (hash, repr, ==) on every object -> indices whose hash changed"""
+        changed = []
+        for i, o in enumerate(self.objs):
+            try:
+                h = hash(o)
+                repr(o)
+                o == o  # noqa: B015
+            except Exception as e:  # noqa: BLE001
+                h = f"unobservable {type(e).__name__}"
+            if i < len(self.hashes):
+                if self.hashes[i] != h:
+                    changed.append((i, self.hashes[i], h))
+                    self.hashes[i] = h
+            else:
+                self.hashes.append(h)
+        return changed
 
     def read(self, o, force_circuit=False) -> str:
         try:
@@ -743,6 +762,9 @@ def k_hist(ctx: Ctx, reg: Registry):
             status, _, obs = step.partition(" | ")
             real_status = store.apply(op)
             ctx.count("hist.op", op[0] + ":" + real_status.replace("err ", ""))
+            for oi, h0, h1 in store.observe():
+                ctx.witness("derive-mutates-original", "hash() of an existing state object changed after a later operation",
+                            {"ops": req, "grid": list(grid), "step": si, "object": oi}, {"before": str(h0), "after": str(h1)})
             if real_status != status.strip():
                 bad = (si, "status", real_status, status)
                 break
@@ -1075,6 +1097,582 @@ def oracle_search(ctx: Ctx, budget_s: float, min_iter: int):
     ctx.search_budget_s += budget_s
 
 
+# ---------------------------------------------------------------------------
+# K5: object protocol (== / hash / repr), constructors and their error branches, alternative public entry points
+# (quantum_state / apply_circuit), argument forms (θ, φ as ints / numpy scalars / keywords; vectors as list / tuple /
+# arrays of several dtypes), caller-reused argument objects.  Real code against independent restatements:
+#   witness  = the real code falsifies the property statement on the printed input
+#   disagree = the real code differs from the documented behaviour restated here (format, read-only flag, …)
+# ---------------------------------------------------------------------------
+FINDING_APPLY = "apply-circuit-drops-phase"
+
+
+def attempt(f):
+    """(True, value) or (False, 'err Class'): exceptions of the real code are outputs"""
+    try:
+        return True, f()
+    except Exception as e:  # noqa: BLE001
+        return False, exc_name(e)
+
+
+def indep_descr(n, bits, real_gates):
+    """(n, bits', phase' mod 4) of gates·|bits> by the sparse simulator (independent of the bookkeeping under test)"""
+    from oracle import c16_state as orc
+
+    w = orc.sparse_run(real_gates, orc.sparse_basis(bits, 0))
+    (b, amp), = w.items()
+    return n, b, min(range(4), key=lambda k: abs(amp - 1j ** k))
+
+
+def read_descr(s):
+    """what a real basis-state object claims through its PUBLIC attributes: (n, bits, phase mod 4) or a string"""
+    try:
+        u = grid_units(float(s.phase))
+        if u is None or u % 32:
+            return f"phase-not-a-quarter-turn {s.phase!r}"
+        return int(s.qubit_count), int(s.bits), (u // 32) % 4
+    except Exception as e:  # noqa: BLE001
+        return f"unreadable {type(e).__name__}"
+
+
+def chain_derive(rng, n, bits, hist):
+    """ComputationalBasisState(n, bits) with the Pauli specs `hist` applied in random chunks / forms / entry points"""
+    from quri_parts.core.state import ComputationalBasisState
+
+    s = ComputationalBasisState(n, bits=bits)
+    k0 = 0
+    while k0 < len(hist):
+        k1 = rng.randint(k0 + 1, len(hist))
+        if rng.random() < 0.4:
+            s.circuit  # noqa: B018 – fills the cached_property slot of the parent
+        chunk = hist[k0:k1]
+        if len(chunk) == 1 and rng.random() < 0.5:
+            s = s.with_pauli_gate_applied(real_seq("L", chunk)[0])
+        else:
+            s = s.with_gates_applied(real_seq(rng.choice(["L", "T", f"C{n}", f"F{n}"]), chunk))
+        k0 = k1
+    if rng.random() < 0.2:
+        s = s.with_gates_applied(rng.choice([[], ()]))
+    return s
+
+
+def small_vec(rng, n):
+    import numpy as np
+
+    dim = 1 << n
+    v = np.array([complex(rng.randint(-3, 3), rng.randint(-3, 3)) for _ in range(dim)], dtype=np.complex128)
+    if not np.any(v):
+        v[rng.randrange(dim)] = 1.0
+    return v
+
+
+def full_vec(st, n):
+    """the vector a real state object describes (dense, n ≤ 6), read through public attributes only"""
+    import numpy as np
+
+    from quri_parts.core.state import ComputationalBasisState, QuantumStateVector
+
+    from oracle import c16_state as orc
+
+    if isinstance(st, ComputationalBasisState):
+        d = read_descr(st)
+        if isinstance(d, str) or d[0] != n:
+            raise ValueError(f"basis state not readable: {d}")
+        return orc.basis(n, d[1], d[2])
+    if st.circuit.qubit_count != n or st.qubit_count != n:
+        raise ValueError("qubit count mismatch")
+    if isinstance(st, QuantumStateVector):
+        return orc.run_circuit(n, st.circuit.gates, np.array(st.vector, dtype=complex))
+    return orc.run_circuit(n, st.circuit.gates)
+
+
+def mixed_specs(rng, n, lo=1, hi=4, pauli_only=False):
+    out = []
+    for _ in range(rng.randint(lo, hi)):
+        if pauli_only or rng.random() < 0.4:
+            out.append(rand_pauli_gate(rng, n)[0])
+        else:
+            out.append(rand_other_gate(rng, n, allow_range_error=False))
+    return out
+
+
+def obj_eq_hash(ctx: Ctx, rng):
+    from quri_parts.core.state import ComputationalBasisState, GeneralCircuitQuantumState
+
+    n = rng.choice([1, 1, 2, 3, 4, 6, 17, 63, 64, 65, 70])
+    bits = rand_bits(rng, n)
+    hist = [rand_pauli_gate(rng, n)[0] for _ in range(rng.randint(0, 7))]
+    kind = rng.choice(["same", "same", "same", "sign", "full-turn", "bitflip", "other-n", "other-bits", "random"])
+    n2, bits2, hist2 = n, bits, list(hist)
+    q = rng.randrange(n)
+    zxzx = [spec("Z", [q]), spec("X", [q]), spec("Z", [q]), spec("X", [q])]  # = −1 on every vector
+    if kind == "sign":
+        hist2 = hist + zxzx
+    elif kind == "full-turn":
+        hist2 = hist + zxzx + zxzx  # = +1: same vector, counter advanced by 4 (either answer of == is fine)
+    elif kind == "bitflip":
+        hist2 = hist + [spec("X", [q])]
+    elif kind == "other-n":
+        n2 = n + 1
+    elif kind == "other-bits":
+        bits2 = bits ^ (1 << q)
+    elif kind == "random":
+        bits2 = rand_bits(rng, n)
+        hist2 = [rand_pauli_gate(rng, n)[0] for _ in range(rng.randint(0, 7))]
+    inp = {"a": {"n": n, "bits": bits, "gates": describe_gates(hist)}, "b": {"n": n2, "bits": bits2, "gates": describe_gates(hist2)}}
+    ok1, s1 = attempt(lambda: chain_derive(rng, n, bits, hist))
+    ok2, s2 = attempt(lambda: chain_derive(rng, n2, bits2, hist2))
+    if not (ok1 and ok2):
+        ctx.witness("pauli-track-rejects", f"a valid Pauli gate list is rejected: {s1 if not ok1 else s2}", inp)
+        return
+    ctx.case(("eq", n, bits, tuple(canon_spec(g) for g in hist), n2, bits2, tuple(canon_spec(g) for g in hist2)), nontrivial=True)
+    ctx.count("obj.eq.kind", kind)
+    d1 = indep_descr(n, bits, real_seq("L", hist))
+    d2 = indep_descr(n2, bits2, real_seq("L", hist2))
+    for s, d, which in ((s1, d1, "a"), (s2, d2, "b")):
+        if not isinstance(s, ComputationalBasisState) or read_descr(s) != d:
+            ctx.witness("pauli-track", f"state {which}: public (qubit_count, bits, phase) = {read_descr(s) if isinstance(s, ComputationalBasisState) else type(s).__name__} "
+                                       f"but the gates give {d}", inp)
+            return
+    okh, hs = attempt(lambda: (hash(s1), hash(s2)))
+    oke, e = attempt(lambda: (s1 == s2, s2 == s1, s1 != s2, s1 == s1, s2 != s2))
+    if not (okh and oke):
+        ctx.witness("eq-hash-contract", f"== / hash of two basis states raised {hs if not okh else e}", inp)
+        return
+    if not all(isinstance(x, bool) for x in e) or e[0] != e[1] or e[2] == e[0] or not e[3] or e[4]:
+        ctx.witness("eq-hash-contract", f"(a==b, b==a, a!=b, a==a, b!=b) = {e}: not a symmetric reflexive equality", inp)
+        return
+    ctx.count("obj.eq.outcome", f"{kind}: {'equal' if e[0] else 'unequal'}")
+    if e[0] and d1 != d2:
+        ctx.witness("eq-unsound", f"a == b although a describes (n, bits, i^p) = {d1} and b describes {d2}", inp)
+    if e[0] and hs[0] != hs[1]:
+        ctx.witness("eq-hash-contract", "a == b but hash(a) != hash(b)", inp)
+    same_tuple = attempt(lambda: s1._as_tuple() == s2._as_tuple())
+    if kind == "same" or same_tuple == (True, True):
+        # identical (qubit count, bits, counter): the library's equality is the equality of this triple
+        if not e[0] or hs[0] != hs[1]:
+            ctx.witness("eq-hash-contract", f"two states with the identical derivation are unequal / hash differently (== {e[0]}, hashes equal {hs[0] == hs[1]})", inp)
+        okd, got = attempt(lambda: {s1: "hit"}.get(s2, "miss"))
+        if not okd or got != "hit":
+            ctx.witness("eq-hash-contract", f"a state with the identical derivation is not found as a dict key ({got})", inp)
+    # foreign objects: never equal, never an exception
+    okg, gen = attempt(lambda: GeneralCircuitQuantumState(n, s1.circuit))
+    foreign = [None, bits, (n, d1[1], 0), "x"] + ([gen] if okg else [])
+    okf, ef = attempt(lambda: [(s1 == o, s1 != o) for o in foreign])
+    if not okf:
+        ctx.witness("eq-hash-contract", f"comparing a basis state with None / int / tuple / str / GeneralCircuitQuantumState raised {ef}", inp)
+    elif any(a is not False or b is not True for a, b in ef):
+        ctx.disagree("eq-foreign", inp, str(ef)[:200], "== False and != True against None / int / tuple / str / GeneralCircuitQuantumState")
+    # observers and later derivations never change an object: hash, ==, repr, public triple
+    okr, r = attempt(lambda: repr(s1))
+    import re
+
+    m = re.fullmatch(r"ComputationalBasisState\(qubit_count=(\d+), bits=(0b[01]+), phase=(-?\d+)π/2\)", r) if okr and isinstance(r, str) else None
+    if not m or (int(m.group(1)), int(m.group(2), 2), int(m.group(3)) % 4) != d1:
+        ctx.disagree("repr", inp, str(r)[:200], f"ComputationalBasisState(qubit_count={d1[0]}, bits={bin(d1[1])}, phase=<p ≡ {d1[2]} mod 4>π/2)")
+    extra = mixed_specs(rng, n, 1, 3)
+    attempt(lambda: s1.circuit)
+    attempt(lambda: s1.with_gates_applied(real_seq(rng.choice(["L", "T", f"C{n}"]), extra)))
+    attempt(lambda: s1.with_pauli_gate_applied(real_seq("L", [rand_pauli_gate(rng, n)[0]])[0]))
+    attempt(lambda: repr(s1))
+    okh2, h2 = attempt(lambda: hash(s1))
+    if not okh2 or h2 != hs[0] or read_descr(s1) != d1 or attempt(lambda: s1 == s2) != (True, e[0]):
+        ctx.witness("derive-mutates-original", "hash / public triple / equality of a basis state changed after reading .circuit, repr and deriving from it",
+                    dict(inp, later=describe_gates(extra)), {"hash_before": hs[0], "hash_after": h2, "triple_after": str(read_descr(s1))})
+
+
+def obj_constructors(ctx: Ctx, rng):
+    """GeneralCircuitQuantumState / QuantumStateVector constructors, their error branches, QuantumStateVector derivation"""
+    import numpy as np
+
+    from quri_parts.core.state import GeneralCircuitQuantumState, QuantumStateVector
+
+    from oracle import c16_state as orc
+
+    n = rng.choice([0, 1, 2, 2, 3, 3, 4, 5])
+    m = rng.choice([n, n, n, n + 1, n + 2, max(n - 1, 0)])
+    w = min(n, m)
+    specs = mixed_specs(rng, w, 0, 4) if w >= 1 else []
+    form = rng.choice("CF") + str(m)
+    okc, qc = attempt(lambda: real_seq(form, specs))
+    if not okc:
+        return
+    want = canon_real_gates(qc.gates)
+    inp = {"n_qubits": n, "circuit_qubit_count": m, "form": form[0], "gates": describe_gates(specs)}
+    ctx.case(("ctor", n, form, want), nontrivial=True)
+    # --- GeneralCircuitQuantumState(n, circuit)
+    cls = rng.choice(["general", "vector"])
+    vec_form = rng.choice(["none", "list", "tuple", "c128", "f64", "i64", "short", "long", "empty"])
+    dim = 1 << n
+    v0 = small_vec(rng, n)
+    if vec_form in ("f64", "i64"):
+        v0 = np.array(v0.real, dtype=np.complex128)
+        if not np.any(v0):
+            v0[0] = 1.0
+    arg = {"none": None, "list": [complex(z) for z in v0], "tuple": tuple(complex(z) for z in v0), "c128": v0.copy(),
+           "f64": np.array(v0.real, dtype=np.float64), "i64": np.array(v0.real, dtype=np.int64),
+           "short": list(v0[:dim - 1]), "long": list(v0) + [0.0] * rng.choice([1, dim]), "empty": []}[vec_form]
+    vec_ok = vec_form not in ("short", "long", "empty") or len(arg) == dim
+    expect_vec = orc.basis(n, 0) if vec_form == "none" else v0
+    use_circ = rng.random() < 0.8
+    if cls == "general":
+        ok, st = attempt(lambda: GeneralCircuitQuantumState(n, qc) if use_circ else GeneralCircuitQuantumState(n))
+        good = (m == n) or not use_circ
+    else:
+        inp = dict(inp, vector_form=vec_form, vector=[str(complex(z)) for z in (arg if arg is not None else [])][:40])
+        ok, st = attempt(lambda: QuantumStateVector(n, arg, qc) if use_circ else (QuantumStateVector(n, vector=arg) if rng.random() < 0.5 else QuantumStateVector(n, arg)))
+        good = ((m == n) or not use_circ) and vec_ok
+    inp["class"] = cls
+    inp["circuit_given"] = use_circ
+    ctx.count("obj.ctor", f"{cls} {'ok' if good else 'inconsistent'}: {'accepted' if ok else st}")
+    if not good:
+        if ok:
+            ctx.witness("constructor-accepts-inconsistent", "a state whose qubit count disagrees with its circuit's qubit count / its vector's dimension "
+                                                            "was constructed instead of being rejected", inp, {"repr": repr(st)[:200]})
+        elif st != "err ValueError":
+            ctx.disagree("constructor-error-class", inp, st, "err ValueError")
+        return
+    if not ok:
+        ctx.witness("constructor-rejects", f"a consistent {cls} state is rejected: {st}", inp)
+        return
+    gates_want = want if use_circ else ""
+    okr, got = attempt(lambda: (st.qubit_count, st.circuit.qubit_count, canon_real_gates(st.circuit.gates)))
+    if not okr or got != (n, n, gates_want):
+        ctx.witness("constructor-state", f"the constructed state reads (qubit_count, circuit.qubit_count, gates) = {str(got)[:200]}, given {(n, n, gates_want)[:2]} and the gates of the input", inp)
+        return
+    if cls == "vector":
+        okv, vv = attempt(lambda: np.array(st.vector, dtype=complex))
+        if not okv or vv.shape != (dim,) or np.max(np.abs(vv - expect_vec)) > 0:
+            ctx.witness("state-vector-value", "QuantumStateVector.vector is not the given vector (default: |0…0>)", inp, {"vector": str(vv)[:200]})
+            return
+        okw, wr = attempt(lambda: st.vector.__setitem__(0, 7.0))
+        if okw or attempt(lambda: bool(st.vector.flags.writeable)) != (True, False):
+            ctx.disagree("vector-readonly", inp, "assignment through .vector accepted" if okw else "writeable flag set", "read-only view")
+    okp, rp = attempt(lambda: repr(st))
+    okq, rq = attempt(lambda: (f"GeneralCircuitQuantumState(n_qubits={n}, circuit={st.circuit})" if cls == "general" else
+                               f"QuantumStateVector(n_qubits={n}, vector={st.vector}, circuit={st.circuit})"))
+    if not okp or (okq and rp != rq):
+        ctx.disagree("repr", inp, str(rp)[:200], str(rq)[:200])
+    if use_circ and form[0] == "C":
+        # the caller keeps building on its mutable circuit: the state must not follow
+        attempt(lambda: qc.add_H_gate(0) if n else None)
+        if attempt(lambda: canon_real_gates(st.circuit.gates)) != (True, gates_want):
+            ctx.witness("state-aliases-argument", "the state's circuit changed when the caller extended the circuit it had passed in", inp)
+            return
+    # --- derivation from it: gates are appended, the vector is kept, the source is untouched
+    more = mixed_specs(rng, n, 0, 3) if n >= 1 else []
+    mform = rng.choice(["L", "T", f"C{n}", f"F{n}"])
+    before = (gates_want, None if cls == "general" else np.array(st.vector, dtype=complex))
+    okd, st2 = attempt(lambda: st.with_gates_applied(real_seq(mform, more)))
+    inp2 = dict(inp, more=describe_gates(more), more_form=mform)
+    if not okd:
+        ctx.witness("derive-general-rejects", f"{type(st).__name__}.with_gates_applied raised {st2} on in-range gates", inp2)
+        return
+    okf, vecs = attempt(lambda: (full_vec(st2, n), orc.run_circuit(n, real_seq("L", more), full_vec(st, n))))
+    bad = not okf or type(st2) is not type(st) or np.max(np.abs(vecs[0] - vecs[1])) > NUM_TOL
+    if cls == "vector" and not bad:
+        bad = np.max(np.abs(np.array(st2.vector, dtype=complex) - before[1])) > 0
+    if bad:
+        ctx.witness("derive-general", f"{type(st).__name__}.with_gates_applied: the derived state is not gates·(source state)", inp2)
+    after = attempt(lambda: (canon_real_gates(st.circuit.gates), None if cls == "general" else np.array(st.vector, dtype=complex)))
+    if not after[0] or after[1][0] != before[0] or (cls == "vector" and not np.array_equal(after[1][1], before[1])):
+        ctx.witness("derive-mutates-original", f"deriving from a {type(st).__name__} changed the source", inp2)
+    ctx.evaluations += 1
+
+
+def obj_entry_points(ctx: Ctx, rng):
+    """quantum_state(...) and apply_circuit(circuit, state): the same calculus through the helper entry points"""
+    import numpy as np
+
+    from quri_parts.core.state import (ComputationalBasisState, GeneralCircuitQuantumState, QuantumStateVector,
+                                       apply_circuit, quantum_state)
+
+    from oracle import c16_state as orc
+
+    n = rng.choice([1, 2, 2, 3, 3, 4, 5])
+    bits = rand_bits(rng, n)
+    pauli_only = rng.random() < 0.5
+    specs = mixed_specs(rng, n, 0, 4, pauli_only=pauli_only)
+    form = rng.choice("CF") + str(n)
+    qc = real_seq(form, specs)
+    pauli_only = all(g["kind"] in PAULI_KINDS for g in specs)
+    mode = rng.choice(["qs-bits", "qs-bits-circuit", "qs-vector", "qs-both", "apply-cb", "apply-cb", "apply-general", "apply-vector"])
+    inp = {"mode": mode, "n": n, "bits": bits, "circuit_form": form[0], "gates": describe_gates(specs)}
+    ctx.case(("entry", mode, n, bits, form[0], canon_real_gates(qc.gates)), nontrivial=True)
+    if mode == "qs-bits":
+        b = rng.choice([bits, bits, 1 << n, -1])
+        ok, st = attempt(lambda: quantum_state(n, bits=b) if b or rng.random() < 0.5 else quantum_state(n))
+        inp["bits"] = b
+        if not 0 <= b < (1 << n):
+            if ok:
+                ctx.witness("constructor-accepts-inconsistent", f"quantum_state accepted bits={b} on {n} qubits", inp)
+            return
+        if not ok or not isinstance(st, ComputationalBasisState) or read_descr(st) != (n, b, 0):
+            ctx.witness("entry-point-state", f"quantum_state(n, bits) is not |bits>: {st if not ok else read_descr(st)}", inp)
+        return
+    if mode == "qs-bits-circuit":
+        ok, st = attempt(lambda: quantum_state(n, bits=bits, circuit=qc))
+        if not ok:
+            ctx.witness("entry-point-rejects", f"quantum_state(n, bits=, circuit=) raised {st}", inp)
+            return
+        if pauli_only:
+            want = indep_descr(n, bits, real_seq("L", specs))
+            if not isinstance(st, ComputationalBasisState) or read_descr(st) != want:
+                ctx.witness("entry-point-state", f"quantum_state(n, bits, Pauli-only circuit) = {read_descr(st) if isinstance(st, ComputationalBasisState) else type(st).__name__}, the gates give {want}", inp)
+            return
+        okv, d = attempt(lambda: orc.phase_defect(full_vec(st, n), orc.run_circuit(n, real_seq("L", specs), orc.basis(n, bits, 0))))
+        if not okv or d > NUM_TOL:
+            ctx.witness("entry-point-state", f"quantum_state(n, bits, circuit) does not prepare circuit·|bits> up to a global phase ({d})", inp)
+        return
+    v0 = small_vec(rng, n)
+    if mode in ("qs-vector", "qs-both"):
+        with_c = rng.random() < 0.5
+        b = bits if mode == "qs-both" else 0
+        arg = rng.choice([lambda: v0.copy(), lambda: [complex(z) for z in v0], lambda: tuple(complex(z) for z in v0)])()
+        ok, st = attempt(lambda: quantum_state(n, vector=arg, bits=b, circuit=qc) if with_c else quantum_state(n, vector=arg, bits=b))
+        inp.update(vector=[str(complex(z)) for z in v0], bits=b, circuit_given=with_c)
+        if b != 0:
+            if ok:  # documented: "Raises ValueError if both a vector and bits input at the same time"
+                ctx.witness("entry-point-state", "quantum_state accepted a vector together with non-zero bits (documented ValueError); the bits are ignored", inp)
+            return
+        okv, d = (False, st) if not ok else attempt(lambda: np.max(np.abs(full_vec(st, n) - orc.run_circuit(n, real_seq("L", specs) if with_c else [], v0))))
+        if not okv or d > NUM_TOL or not isinstance(st, QuantumStateVector):
+            ctx.witness("entry-point-state", f"quantum_state(n, vector[, circuit]) does not describe circuit·vector ({d})", inp)
+        return
+    # --- apply_circuit
+    hist = [rand_pauli_gate(rng, n)[0] for _ in range(rng.randint(0, 5))]
+    if mode == "apply-cb":
+        ok, src = attempt(lambda: chain_derive(rng, n, bits, hist))
+        inp["history"] = describe_gates(hist)
+    elif mode == "apply-general":
+        pre = mixed_specs(rng, n, 0, 3)
+        ok, src = attempt(lambda: GeneralCircuitQuantumState(n, real_seq(f"C{n}", pre)))
+        inp["source_gates"] = describe_gates(pre)
+    else:
+        pre = mixed_specs(rng, n, 0, 2)
+        ok, src = attempt(lambda: QuantumStateVector(n, v0.copy(), real_seq(f"F{n}", pre)))
+        inp.update(source_gates=describe_gates(pre), vector=[str(complex(z)) for z in v0])
+    if not ok:
+        return
+    okb, before = attempt(lambda: (full_vec(src, n), canon_real_gates(src.circuit.gates) if mode != "apply-cb" else read_descr(src)))
+    if not okb:
+        return
+    ok, out = attempt(lambda: apply_circuit(qc, src))
+    if not ok:
+        ctx.witness("entry-point-rejects", f"apply_circuit raised {out} on a circuit of the state's qubit count", inp)
+        return
+    okv, vs = attempt(lambda: (full_vec(out, n), orc.run_circuit(n, real_seq("L", specs), before[0])))
+    exact = mode == "apply-vector" or (mode == "apply-cb" and isinstance(out, ComputationalBasisState))
+    d = 9.0 if not okv else (float(np.max(np.abs(vs[0] - vs[1]))) if exact else orc.phase_defect(vs[0], vs[1]))
+    ctx.count("obj.apply", f"{mode} -> {type(out).__name__}: " + ("ok" if d <= NUM_TOL else "differs"))
+    if d > NUM_TOL:
+        if okv and exact and mode == "apply-cb" and before[1][2] != 0 and orc.phase_defect(vs[0], vs[1]) <= NUM_TOL:
+            # the defect replayed by replay_apply_witness (registered there, once): only counted here
+            ctx.count("obj.apply", "known: source phase counter dropped")
+        else:
+            ctx.witness("entry-point-state", f"apply_circuit(circuit, state) does not describe circuit·state ({'exactly' if exact else 'up to a global phase'}; defect {d:.3g})", inp)
+    after = attempt(lambda: (full_vec(src, n), canon_real_gates(src.circuit.gates) if mode != "apply-cb" else read_descr(src)))
+    if not after[0] or after[1][1] != before[1] or not np.array_equal(after[1][0], before[0]):
+        ctx.witness("derive-mutates-original", "apply_circuit changed the source state", inp)
+
+
+def obj_angle_forms(ctx: Ctx, rng):
+    """θ, φ as Python ints, numpy scalars, keyword arguments; the same state twice (a is b)"""
+    import numpy as np
+
+    from quri_parts.core.state import comp_basis_superposition
+
+    from oracle import c16_state as orc
+
+    n = rng.choice([1, 2, 3, 4, 6, 9, 33, 64, 70])
+    a, b = rand_bits(rng, n), rand_bits(rng, n)
+    if rng.random() < 0.3:
+        b = a ^ (1 << rng.randrange(min(n, 64)))
+    ha = [rand_pauli_gate(rng, n)[0] for _ in range(rng.randint(0, 4))]
+    hb = [rand_pauli_gate(rng, n)[0] for _ in range(rng.randint(0, 4))]
+    ok, ss = attempt(lambda: (chain_derive(rng, n, a, ha), chain_derive(rng, n, b, hb)))
+    if not ok:
+        return
+    sa, sb = ss
+    if rng.random() < 0.1:
+        sb, b, hb = sa, a, ha
+    da, db = indep_descr(n, a, real_seq("L", ha)), indep_descr(n, b, real_seq("L", hb))
+    x = da[1] ^ db[1]
+    if x and x % (1 << 64) == 0:
+        return  # the known lowest-differing-bit ≥ 64 rejection (replayed by replay_known_witness)
+
+    def form(name):
+        if name == "int":
+            v = rng.randint(-7, 7)
+            return v, float(v)
+        if name == "np.float64":
+            v = rng.uniform(-7, 7)
+            return np.float64(v), v
+        if name == "np.int64":
+            v = rng.randint(-7, 7)
+            return np.int64(v), float(v)
+        if name == "big":
+            v = rng.uniform(-1, 1) + 2 * math.pi * rng.randint(-40, 40)
+            return v, v
+        v = rng.uniform(-7, 7)
+        return v, v
+
+    ft, fp = rng.choice(["int", "np.float64", "np.int64", "float", "big"]), rng.choice(["int", "np.float64", "np.int64", "float", "big"])
+    (theta, th), (phi, ph) = form(ft), form(fp)
+    kw = rng.random() < 0.3
+    inp = {"n": n, "a": list(da[1:]), "b": list(db[1:]), "theta": repr(theta), "phi": repr(phi), "theta_form": ft, "phi_form": fp,
+           "keywords": kw, "same_object": sa is sb}
+    tgt = orc.sparse_target(da[1], da[2], db[1], db[2], th, ph)
+    nt = orc.sparse_norm(tgt)
+    if nt < 1e-3:
+        return
+    tgt = {k: z / nt for k, z in tgt.items()}
+    ok, st = attempt(lambda: comp_basis_superposition(state_b=sb, phi=phi, theta=theta, state_a=sa) if kw else comp_basis_superposition(sa, sb, theta, phi))
+    ctx.case(("angles", n, da, db, ft, fp, kw), nontrivial=True)
+    ctx.count("obj.angles", f"{ft}/{fp}" + (" kw" if kw else ""))
+    if not ok:
+        ctx.witness("superposition-rejects", f"comp_basis_superposition raised {st} for θ given as {ft}, φ as {fp}", inp)
+        return
+    okw, w = attempt(lambda: orc.sparse_run(st.circuit.gates, None))
+    d = orc.sparse_phase_defect(w, tgt) if okw and w is not None else 9.0
+    if d > NUM_TOL or st.qubit_count != n:
+        ctx.witness("superposition-state", f"the circuit does not prepare cosθ·i^pa|a> + e^(iφ)sinθ·i^pb|b> up to a global phase (defect {d:.3g})",
+                    dict(inp, circuit=canon_real_gates(st.circuit.gates)[:400]))
+    if read_descr(sa) != da or read_descr(sb) != db:
+        ctx.witness("derive-mutates-original", "comp_basis_superposition changed one of its arguments", inp)
+
+
+def obj_arg_reuse(ctx: Ctx, rng):
+    """the caller re-uses (and changes) the list / mutable circuit it passed: earlier results must not follow,
+    later calls must see the new content (no result cached on the identity of the argument or of the source)"""
+    import numpy as np
+
+    from quri_parts.core.state import ComputationalBasisState, GeneralCircuitQuantumState, QuantumStateVector
+
+    from oracle import c16_state as orc
+
+    n = rng.choice([1, 2, 3, 4, 5])
+    bits = rand_bits(rng, n)
+    src_kind = rng.choice(["cb", "cb", "general", "vector"])
+    hist = [rand_pauli_gate(rng, n)[0] for _ in range(rng.randint(0, 4))]
+    if src_kind == "cb":
+        ok, src = attempt(lambda: chain_derive(rng, n, bits, hist))
+    elif src_kind == "general":
+        ok, src = attempt(lambda: GeneralCircuitQuantumState(n, real_seq(f"C{n}", hist)))
+    else:
+        ok, src = attempt(lambda: QuantumStateVector(n, small_vec(rng, n), real_seq(f"C{n}", hist)))
+    if not ok:
+        return
+    v_src = full_vec(src, n)
+    pauli_first = rng.random() < 0.5
+    first = mixed_specs(rng, n, 0, 3, pauli_only=pauli_first)
+    second = mixed_specs(rng, n, 1, 2, pauli_only=rng.random() < 0.5)
+    form = rng.choice(["L", f"C{n}"])
+    arg = real_seq(form, first)
+    inp = {"n": n, "source": src_kind, "bits": bits, "history": describe_gates(hist), "first": describe_gates(first),
+           "then_appended": describe_gates(second), "argument": "list" if form == "L" else "QuantumCircuit"}
+    ctx.case(("reuse", n, src_kind, bits, form[0], tuple(canon_spec(g) for g in hist + first + second)), nontrivial=True)
+    ok1, r1 = attempt(lambda: src.with_gates_applied(arg))
+    if not ok1:
+        ctx.witness("derive-general-rejects", f"with_gates_applied raised {r1} on in-range gates", inp)
+        return
+    okv, v1 = attempt(lambda: full_vec(r1, n))
+    snap1 = canon_state(r1) if isinstance(r1, ComputationalBasisState) else canon_real_gates(r1.circuit.gates)
+    for g in real_seq("L", second):
+        arg.append(g) if form == "L" else arg.add_gate(g)
+    ok2, r2 = attempt(lambda: src.with_gates_applied(arg))
+    if not ok2:
+        ctx.witness("derive-general-rejects", f"with_gates_applied raised {r2} on in-range gates (second call, argument extended)", inp)
+        return
+    okw, v2 = attempt(lambda: full_vec(r2, n))
+    exact = isinstance(src, ComputationalBasisState) or isinstance(src, QuantumStateVector)
+    want1 = orc.run_circuit(n, real_seq("L", first), v_src)
+    want2 = orc.run_circuit(n, real_seq("L", first + second), v_src)
+
+    def dist(u, w, ex):
+        return float(np.max(np.abs(u - w))) if ex else orc.phase_defect(u, w)
+
+    ex1 = isinstance(r1, (ComputationalBasisState, QuantumStateVector)) and exact
+    ex2 = isinstance(r2, (ComputationalBasisState, QuantumStateVector)) and exact
+    if not okv or dist(v1, want1, ex1) > NUM_TOL:
+        ctx.witness("derive-general" if not isinstance(r1, ComputationalBasisState) else "pauli-track", "first derivation is not gates·(source state)", inp)
+    if not okw or dist(v2, want2, ex2) > NUM_TOL:
+        ctx.witness("derive-reused-argument", "second derivation with the extended argument is not (first + appended gates)·(source state)", inp,
+                    {"second_result": (canon_state(r2) if isinstance(r2, ComputationalBasisState) else canon_real_gates(r2.circuit.gates))[:300]})
+    snap1b = canon_state(r1) if isinstance(r1, ComputationalBasisState) else canon_real_gates(r1.circuit.gates)
+    if snap1b != snap1:
+        ctx.witness("state-aliases-argument", "an already derived state changed when the caller extended the argument it had passed", inp)
+    okz, vz = attempt(lambda: full_vec(src, n))
+    if not okz or not np.array_equal(vz, v_src):
+        ctx.witness("derive-mutates-original", "the source state changed", inp)
+
+
+def k_objects(ctx: Ctx):
+    rng = ctx.rng
+    parts = [(obj_eq_hash, ctx.n(160, 5000)), (obj_constructors, ctx.n(200, 5000)), (obj_entry_points, ctx.n(200, 5000)),
+             (obj_angle_forms, ctx.n(120, 4000)), (obj_arg_reuse, ctx.n(120, 4000))]
+    for fn, k in parts:
+        for _ in range(k):
+            try:
+                fn(ctx, rng)
+            except Exception as e:  # noqa: BLE001 – every real-code call above is wrapped; what arrives here is unexpected
+                import traceback
+
+                ctx.witness("unexpected-exception", f"{fn.__name__}: {exc_name(e)} while judging the real code's result",
+                            {"traceback": traceback.format_exc()[-1200:]})
+
+
+def k_bitutils(ctx: Ctx):
+    """bit.py helpers the state calculus does not call itself (bit_length, parity_sign_of_bits): documented behaviour"""
+    import numpy as np
+
+    from quri_parts.core.utils import bit as B
+
+    rng = ctx.rng
+    xs = [0, 1, 2, 3, 255, 256, (1 << 63) - 1, 1 << 63, (1 << 64) - 1, 1 << 64, (1 << 70) + 1]
+    xs += [rng.getrandbits(rng.choice([3, 8, 31, 32, 33, 63, 64, 65, 70])) for _ in range(ctx.n(100, 2000))]
+    for x in xs:
+        pop = sum((x >> i) & 1 for i in range(80))
+        length = next((k for k in range(81) if x >> k == 0))
+        ctx.case(("bitutil", x), nontrivial=x != 0)
+        forms = [x]
+        for t, lim in ((np.int8, 7), (np.int16, 15), (np.int32, 31), (np.int64, 63)):
+            if x < (1 << lim):
+                forms.append(t(x))
+        for f in forms:
+            r = attempt(lambda: B.bit_length(f))
+            if r != (True, length) or type(r[1]) is not int:
+                ctx.disagree("bit_length", {"x": x, "type": type(f).__name__}, str(r[1]), str(length))
+        r = attempt(lambda: B.parity_sign_of_bits(x))
+        if r != (True, 1 - 2 * (pop % 2)):
+            ctx.disagree("parity_sign_of_bits", {"x": x}, str(r[1]), str(1 - 2 * (pop % 2)))
+
+
+def replay_apply_witness(ctx: Ctx):
+    """the listed finding `apply-circuit-drops-phase`, re-derived on the real code every run (pinned input)"""
+    from quri_parts.circuit import QuantumCircuit, Y
+    from quri_parts.core.state import ComputationalBasisState, apply_circuit
+
+    def run():
+        s = ComputationalBasisState(1, bits=0).with_gates_applied([Y(0)])  # i|1>
+        qc = QuantumCircuit(1)
+        qc.add_X_gate(0)
+        return read_descr(s), read_descr(s.with_gates_applied(qc)), read_descr(apply_circuit(qc, s)), read_descr(apply_circuit(QuantumCircuit(1), s))
+
+    ok, r = attempt(run)
+    ctx.traces += 1
+    ctx.case(("witness", "apply-circuit"), sample={"kind": "witness", "real": str(r)[:160]})
+    if not ok or r[0] != (1, 1, 1) or r[1] != (1, 0, 1):
+        ctx.witness("pauli-track", f"Y(0) on |0> then X(0): expected i|1> then i|0>, got {r}", {"n": 1, "gates": ["Y(0)", "X(0)"]})
+        return
+    if r[2] != (1, 0, 1) or r[3] != (1, 1, 1):
+        ctx.witness(FINDING_APPLY,
+                    "apply_circuit(circuit, ComputationalBasisState) rebuilds the result from state.circuit + circuit on |0…0>: the "
+                    "source's phase counter is dropped (i|1> --X--> |0> instead of i|0>; the empty circuit maps i|1> to |1>)",
+                    {"source": "ComputationalBasisState(1, bits=0).with_gates_applied([Y(0)])", "circuit": "X(0)"},
+                    {"with_gates_applied": str(r[1]), "apply_circuit": str(r[2]), "apply_circuit_empty": str(r[3])})
+
+
 def replay_known_witness(ctx: Ctx):
     """Props.C16.superposition_rejects_high_bits_witness on the real code and on the model"""
     from quri_parts.core.state import ComputationalBasisState, comp_basis_superposition
@@ -1138,7 +1736,9 @@ def run(ctx: Ctx, replay=None) -> int:
                 "gate for gate with grid-angle integers / affine angle forms (cθ, cφ, c0) recovered from 4 probes, exception "
                 "class; distinct = distinct canonical inputs with a non-empty gate list (track), a ≠ b (sup), x ≠ 0 (low), "
                 "every history; plus the property on the real code against oracle/c16_state.py (numpy, n ≤ 6; counted in "
-                "evaluations only)")
+                "evaluations only); plus K5 (real code vs restated behaviour): == / hash / repr of basis states, state "
+                "constructors and their error branches, quantum_state / apply_circuit, θ/φ argument forms, caller-reused "
+                "argument objects, bit_length / parity_sign_of_bits")
     ctx.trusted = TRUSTED
     ctx.assumptions = [
         "qubit counts and indices are naturals, bits and phase counters Python ints (ComputationalBasisState(-1) is out of scope)",
@@ -1163,12 +1763,16 @@ def run(ctx: Ctx, replay=None) -> int:
     reg = Registry()
     with ctx.timed("correspond"):
         replay_known_witness(ctx)
+        replay_apply_witness(ctx)
         k_track(ctx, reg)
         k_pauli_entry(ctx, reg)
         k_sup(ctx, reg)
         k_low(ctx)
         k_hist(ctx, reg)
         k_sem(ctx)
+    with ctx.timed("objects"):
+        k_objects(ctx)
+        k_bitutils(ctx)
     with ctx.timed("oracle_validation"):
         broken = bool(ctx.failed_obligations or ctx.disagreements)
         budget = (3 if ctx.quick() else 150) * (8 if broken else 1)
